@@ -32,7 +32,7 @@ def make_exc(kind):
         return _socket.timeout("timed out")
     if kind == "reset":
         return ConnectionResetError(errno.ECONNRESET, "Connection reset by peer")
-    if kind == "refused":
+    if kind in ("refused", "nowhere"):
         return ConnectionRefusedError(errno.ECONNREFUSED, "Connection refused")
     if kind == "pipe":
         return BrokenPipeError(errno.EPIPE, "Broken pipe")
@@ -185,6 +185,11 @@ class FakeSocket:
         f = self._fault("connect")
         key = self.net.server_key_for(addr)
         srv = self.net.servers.get(key)
+        if f is None and isinstance(addr, tuple) and addr[0] in self.net.stale_ips:
+            # the name has been pointed at another address since: nobody listens at the old one.  Not a fault of the
+            # environment -- a client that resolves the name again reaches the server
+            f = "nowhere"
+            srv = None
         if f is None and (srv is None or srv.down):
             f = "refused"
         self.server_key = key
@@ -330,6 +335,8 @@ class FakeNet:
         self.servers = {}       # server key -> RefServer
         self.addrs = {}         # host -> [(family, ip)]
         self.ip2host = {}
+        self.stale_ips = set()
+        self.repoints = 0
         self.log = []
         self.socks = []
         self.wire_log = []      # (sid, bytes) of every successful sendall
@@ -355,6 +362,17 @@ class FakeNet:
             for _, ip in al:
                 self.ip2host[ip] = host
         return srv
+
+    def repoint(self, host):
+        """the server behind `host` moves to a new address; the old ones stop answering"""
+        old = self.addrs.get(host, [])
+        for _, ip in old:
+            self.stale_ips.add(ip)
+        self.repoints += 1
+        new = [(fam, "10.99.%d.%d" % (self.repoints, i + 1)) for i, (fam, _) in enumerate(old or [(self.AF_INET, "")])]
+        self.addrs[host] = new
+        for _, ip in new:
+            self.ip2host[ip] = host
 
     def tls_context(self):
         return FakeTLSContext(self)
